@@ -337,6 +337,7 @@ func init() {
 			{Name: "COUPLED-TABIX", What: "tabix: refNames append ⇔ nameMap insert", Floor: 1, Run: ruleCoupledTabix},
 			{Name: "SORTED-PRE", What: "every application of a merge strategy is to a chunk list sorted by begin offset", Floor: 5, Run: ruleSortedPre},
 			{Name: "PANIC-REACH", What: "no explicit panic in Add/Chunks outside the reviewed table", Floor: 15, Run: rulePanicReach},
+			{Name: "PRUNE-ROLE", What: "Chunks prunes a candidate chunk only by comparing its End with the reference offset of its own tile (BAI) / its own bin (CSI), keeping End > offset", Floor: 2, Run: rulePruneRole},
 		},
 		Explanation: "Necessary conditions of completeness that hold by construction: the bin a record is filed under is among the bins enumerated for every overlapping query (BIN-PAIRS, BIN-PAIRS-CSI, ARG-AGREE), tabix maps each name to one id (COUPLED-TABIX), merge strategies only ever see sorted input (SORTED-PRE, the precondition C17 depends on), and adding sorted records cannot reach an explicit panic (PANIC-REACH).",
 		NotDecided:  "the linear-index (16 KiB tile) arithmetic in Add/Chunks and the pruning test – value-level (the defect in it found by reading was repaired, see known_findings.txt).",
